@@ -216,9 +216,7 @@ func seqOracle(ctx *hx.Ctx, idx int, size uint64, caseLine, implLine string) {
 		case 1:
 			x := cs[i+1]
 			i += 2
-			if closed {
-				dead = true
-			}
+			// since fix 65dea14 Close() leaves an empty FIFO: pushes after it are ordinary pushes
 			ok := im[j] == 1
 			j++
 			if !dead {
